@@ -4286,6 +4286,10 @@ class Wallet(object):
                                      random_output_order=False)
         rt.version_int = t_import.version_int
         rt.version = t_import.version
+        if rt.locktime != t_import.locktime:
+            # transaction_create reads locktime 0 as not specified and applies this wallet's anti-fee-sniping default
+            rt.locktime = t_import.locktime
+            rt.txid = rt.signature_hash()[::-1].hex()
         rt.verify()
         rt.size = len(rawtx)
         rt.calc_weight_units()
